@@ -150,7 +150,7 @@ impl SearchStream {
         (old(self).timeout is None && old(self).rx->0.next_item() is Some) ==> r is Ok, //# C10.received_item_is_never_dropped
         // timeout: Elapsed => scrub of last_id sent, Err(Timeout)
         r matches Err(LdapError::Timeout) ==> old(self).timeout is Some
-            && final(self).ldap.id_scrub_tx.log@ == old(self).ldap.id_scrub_tx.log@.push(old(self).ldap.last_id), //# C12.item_timeout_sends_scrub_for_last_id
+            && final(self).ldap.id_scrub_tx.log@ == old(self).ldap.id_scrub_tx.log@.push(old(self).ldap.last_id), //# C12+C13.item_timeout_sends_scrub_for_last_id
         !(r matches Err(LdapError::Timeout)) ==> final(self).ldap.id_scrub_tx.log@ == old(self).ldap.id_scrub_tx.log@, //# C12.no_scrub_without_timeout
 //@end
 
